@@ -1,5 +1,6 @@
 #!/bin/sh
-# tools/seeded_all.sh <logfile> [ids...] : confirms every seeded change and runs its own check (plus related checks) against it
+# tools/seeded_all.sh <logfile> [ids...] : confirms every seeded change (seeded/<id>/) in a scratch worktree of /repo HEAD and runs the
+# check of its property (plus related checks) against it. Safe to run several instances on disjoint id lists.
 cd "$(dirname "$0")/.."
 LOG=$1; shift
 IDS=${*:-$(ls seeded)}
@@ -7,8 +8,10 @@ IDS=${*:-$(ls seeded)}
 for id in $IDS; do
   case $id in
     C02) cs="C02 C04";; C04) cs="C04 C02";; C05) cs="C05 C08";; C08) cs="C08 C05 C03";; C09) cs="C09 C19";; C19) cs="C19 C09";;
-    C26) cs="C26 C01";; C03) cs="C03 C01";; C25) cs="C25 C24";; *) cs="$id";;
+    C26) cs="C26 C01";; C03) cs="C03 C01";; C25) cs="C25 C24";;
+    C01b) cs="C01 C03";; C03b) cs="C03 C02";; C04b) cs="C04 C02";; C05b) cs="C05 C02";; C06b) cs="C06 C01";; C07b) cs="C07 C01";;
+    C14b) cs="C14 C10";; C17b) cs="C17 C10";; C32b) cs="C32 C33";;
+    *) cs="${id%b}";;
   esac
   tools/seeded.sh $id "$cs" >> $LOG 2>&1
 done
-
